@@ -714,6 +714,29 @@ def check_crafted_patterns(patterns=None):
     return None
 
 
+def check_error_fields(extra_urls=()):
+    """The request error reports the status and the URL it was constructed with (whatever the URL looks like)."""
+    from sharepoint2text.sharepoint_io.exceptions import SharePointRequestError
+    base = GRAPH + "/sites/SITE/drive/items/F1/children"
+    urls = [base, base + "?$expand=listItem($expand=fields)", "https://login.microsoftonline.com/tenant/oauth2/v2.0/token", "",
+            "not a url", "https://h/p?a=1#frag", "HTTPS://Host:443/A%20b/../c?x=%2F&Token=abc", "http://[::1", "//h/p?sig=1", "?token",
+            GRAPH + "/sites/SITE/drive/root:/Q1%20Reports/a%26b"] + [GRAPH + "/next/F1/2" + q for q in FakeGraph.NEXT_QUERIES]
+    for url in list(extra_urls) + urls:
+        for status in (None, 0, 200, 302, 404, 503):
+            for body in (None, "", '{"error": {"code": "itemNotFound"}}'):
+                rec = {"target": "sharepoint2text/sharepoint_io/exceptions.py::SharePointRequestError.__init__",
+                       "inputs": {"message": "API request failed", "status_code": status, "body": body, "url": url},
+                       "expected": f"status_code={status!r}, url={url!r}"}
+                try:
+                    e = SharePointRequestError("API request failed", status_code=status, body=body, url=url)
+                except Exception as ex:  # noqa
+                    return dict(rec, observed=f"constructor raised {type(ex).__name__}: {ex}")
+                got = (getattr(e, "status_code", "<missing>"), getattr(e, "url", "<missing>"))
+                if got != (status, url) or type(got[1]) is not str:
+                    return dict(rec, observed=f"status_code={got[0]!r}, url={got[1]!r}")
+    return None
+
+
 def check_known_overlap(witness):
     """Known finding C18-overlapping-targets: a requested folder together with one of its descendants is walked twice."""
     tg = (witness or {}).get("folder_paths") or ["Docs", "Docs/Q1"]
@@ -765,7 +788,8 @@ def listing_filters():
 
 
 def suite(seeds=range(6), fault_seeds=range(3), quick=False):
-    r = check_parse_assumptions() or check_misc_filter() or check_filter_boundaries() or check_target_folders() or check_crafted() or check_crafted_patterns()
+    r = check_parse_assumptions() or check_misc_filter() or check_filter_boundaries() or check_target_folders() or check_crafted() or check_crafted_patterns() \
+        or check_error_fields()
     if r is not None:
         return r
     for seed in seeds:
@@ -820,6 +844,13 @@ def find(req):
                                                  "12 fault kinds at every request index, crafted prefix / percent-escape siblings)"}
         r["reproduced"] = True
         return r
+    if "SharePointRequestError" in ob:
+        w = req.get("witness") or {}
+        r = check_error_fields([v for v in w.values() if isinstance(v, str)] if isinstance(w, dict) else ()) or suite(quick=True)
+        if r is None:
+            return {"reproduced": False, "note": "request errors built from 15 URL shapes x 6 statuses x 3 bodies report what they were given"}
+        r["reproduced"] = True
+        return r
     if "get_target_folders" in ob or "_since" in ob:
         r = (check_target_folders() if "get_target_folders" in ob else None) or check_crafted()
         if r is None:
@@ -860,6 +891,9 @@ def rerun(stored):
             r = check_matches_once(inp["file"][field], fd[which[0]], which[0])
         else:
             r = check_one_filter(fd, inp["file"].get("name", ""), inp["file"].get("parent_path"))
+        return dict(r or {}, reproduced=r is not None)
+    if "status_code" in inp and "url" in inp:
+        r = check_error_fields([inp["url"]])
         return dict(r or {}, reproduced=r is not None)
     if "folder_paths" in inp and "library" not in inp:
         r = check_targets_once(inp["folder_paths"])
